@@ -1598,18 +1598,79 @@ def check_c17(tier, replay):
         rdv = vlib.run_tlc("MC_Files", cfg, prop + "fd", timeout_s=900, coverage=False)
         if not rdv.violated:
             raise ToolError("Files.tla does not notice deviation %s" % dev)
-    depth = 7 if tier == "quick" else 9
-    want = 12 if tier == "quick" else 90
+    depth = 9 if tier == "quick" else 10
+    want = 14 if tier == "quick" else 90
     cfg = vlib.render_cfg("MC_Files.cfg", dict(fconsts, MaxOps=str(depth), EmitBehaviours="TRUE"),
                           os.path.join(wd, "f_emit.cfg"))
-    raw = _emit_cases("MC_Files", cfg, prop + "fe", simulate=(want * 12, depth * 8), timeout_s=600)
+    raw = _emit_cases("MC_Files", cfg, prop + "fe", simulate=(max(4000, want * 40), depth * 8), timeout_s=600)
     uniq = {}
     for h in raw:
         uniq.setdefault(json.dumps([s["op"] for s in h]), h)
     beh = list(uniq.values())
-    # behaviours in which the reader syncs (twice, ideally) first
-    beh.sort(key=lambda h: -min(2, sum(1 for s in h if s["op"][0] == "SyncReader")))
-    beh = beh[:want]
+
+    def features(h):
+        """What a behaviour exercises on the reader: for every slot whose blob the reader holds, the
+        edits (and pairs of consecutive edits) between two reader syncs, with the folder the reader
+        holds the blob in and whether that folder is deleted in the same window (which would hide a
+        blob left behind)."""
+        feats = set()
+        reader_has = {}            # slot -> folder in which the reader holds the blob
+        live = {}                  # slot -> folder (editor)
+        pending = {}               # slot -> ops since the last reader sync
+        deleted_folders = set()
+        for s in h:
+            op = s["op"]
+            k = op[0]
+            if k == "SyncReader":
+                for sl, ops in pending.items():
+                    if sl in reader_has:
+                        src = reader_has[sl]
+                        tag = "masked" if src in deleted_folders else "clean"
+                        for o in ops:
+                            feats.add(("1", o, src, tag))
+                        for a, b in zip(ops, ops[1:]):
+                            feats.add(("2", a, b, src, tag))
+                        if len(ops) >= 3:
+                            feats.add(("3+", tag))
+                pending = {}
+                deleted_folders = set()
+                reader_has = dict(live)
+                feats.add(("sync", min(3, len(live))))
+            elif k == "CreateFile":
+                live[op[1]] = op[2]
+                pending.setdefault(op[1], []).append("Create")
+            elif k == "UpdateFile":
+                pending.setdefault(op[1], []).append("Update")
+            elif k == "MoveFile":
+                live[op[1]] = op[2]
+                pending.setdefault(op[1], []).append("Move")
+            elif k == "DeleteSecret":
+                live.pop(op[1], None)
+                pending.setdefault(op[1], []).append("Delete")
+            elif k == "DeleteFolder":
+                deleted_folders.add(op[1])
+                for sl in [x for x, f in live.items() if f == op[1]]:
+                    live.pop(sl)
+                    pending.setdefault(sl, []).append("DeleteFolder")
+        return feats
+
+    def weight(fs):
+        return sum(3 if "clean" in f else 1 for f in fs)
+    # greedy cover of the features
+    pool = [(features(h), h) for h in beh]
+    chosen, covered = [], set()
+    while pool and len(chosen) < want:
+        pool.sort(key=lambda fh: -weight(fh[0] - covered))
+        f, h = pool.pop(0)
+        if not (f - covered) and len(chosen) >= want // 2:
+            break
+        covered |= f
+        chosen.append(h)
+    rest = [h for _, h in pool]
+    beh = (chosen + rest)[:want]
+    all_feats = set()
+    for h in list(uniq.values()):
+        all_feats |= features(h)
     ops = {}
     for h in beh:
         for s in h:
@@ -1672,6 +1733,8 @@ def check_c17(tier, replay):
         "samples": (s_up["samples"][:2] + s_f["samples"][:1]), "exhaustive": tier != "quick",
         "upload_schedules": {"faithful": len(faithful), "racing": len(racing)},
         "file_behaviours": len(beh), "file_operations": ops,
+        "reader_features_covered": sorted("/".join(map(str, f)) for f in covered),
+        "reader_features_in_pool": len(all_feats),
         "counters": {"upload": s_up["counters"], "files": s_f["counters"]},
     }
     assumptions = ["settle time %ss per step (VERIF_SETTLE_SECS): a set that is still wrong after it is reported"
